@@ -15,6 +15,7 @@ import (
 	"flag"
 	"fmt"
 	"os"
+	"runtime/debug"
 	"strconv"
 	"strings"
 
@@ -81,6 +82,15 @@ func Main(module string, d Driver) {
 	}
 	_ = sdk.GetConfig()
 	chain.DriverCfg = cfg
+	// a driver that dies on a state it did not expect (possible on a broken tree) must not take
+	// the recorded part of the execution with it: flush, report, exit 3
+	defer func() {
+		if r := recover(); r != nil {
+			chain.FlushAll()
+			fmt.Fprintf(os.Stderr, "harness panic: %v\n%s\n", r, debug.Stack())
+			os.Exit(3)
+		}
+	}()
 	if err := d(mode, fl); err != nil {
 		fmt.Fprintln(os.Stderr, "harness error:", err)
 		os.Exit(2)
